@@ -402,3 +402,39 @@ Proof.
   vm_compute in Ed. vm_compute in Es. inversion Ed; subst d. inversion Es; subst s.
   vm_compute. repeat split; reflexivity.
 Qed.
+
+(* ================================================================ live views over an edited base *)
+(* Complement(g) and InducedSubgraph(g, V) are views whose observers are computed from g when
+   they are called.  Along every history of edits with valid arguments (C05's alphabet: AddVertex
+   with a duplicate-free in-range list, RemoveVertex of any vertex, AddEdge, RemoveEdge -- so also
+   SplitEdge and Contract, [split_edge_is_edits], [contract_is_edits]) of a well-formed DenseGraph
+   or SparseGraph g: no edit panics, the base g' stays well formed and represents the abstract
+   graph a' after the same edits, and every view of g' -- complement, induced, complement of
+   induced, induced of complement -- shows through N, M, Degrees, Neighbours, IsEdge exactly the
+   complement / induced subgraph of a' (the CURRENT base), for every duplicate-free V with
+   entries below the CURRENT number of vertices. *)
+From Mamba Require Import Graph.CtorEditViews.
+
+Theorem C06_views_after_edits : forall g ops, ewf g -> valid_edits (eabs g) ops ->
+  exists g', foldM e_step ops g = Some g' /\ ewf g' /\
+    let a' := a_run (eabs g) ops in
+    aeq (eabs g') a' /\ awf a' /\ grep (e_val g') a' /\
+    grep (GC (e_val g')) (a_compl a') /\ awf (a_compl a') /\
+    forall V, NoDup V -> (forall x, In x V -> x < an a') ->
+      awf (a_induced a' V) /\
+      grep (induced_view (e_val g') V) (a_induced a' V) /\
+      grep (GC (induced_view (e_val g') V)) (a_compl (a_induced a' V)) /\
+      grep (induced_view (GC (e_val g')) V) (a_induced (a_compl a') V).
+Proof. exact views_after_edits. Qed.
+Print Assumptions C06_views_after_edits.
+
+(* non-vacuity: the sparse path 0-1-2; AddVertex([2 0]), RemoveVertex(1) (not the last vertex),
+   AddEdge(0,1); complement view and the induced view on V = [2 0] of the result *)
+Example C06_views_after_edits_nonvacuous :
+  exists g', foldM e_step [OAddV [2; 0]; ORemV 1; OAddE 0 1]
+               (ES (mkSparse 3 2 [[1]; [0; 2]; [1]] [1; 2; 1]%Z)) = Some g' /\
+    e_val g' = GS (mkSparse 3 3 [[1; 2]; [0; 2]; [0; 1]] [2; 2; 2]%Z) /\
+    g_M (GC (e_val g')) = Some 0%Z /\ g_degrees (GC (e_val g')) = Some [0; 0; 0]%Z /\
+    g_neighbours (induced_view (e_val g') [2; 0]) 0 = Some [1] /\
+    g_M (induced_view (e_val g') [2; 0]) = Some 1%Z.
+Proof. eexists. split; [vm_compute; reflexivity|]. vm_compute. repeat split. Qed.
